@@ -203,7 +203,7 @@ def step (s : DSt) (line : String) : DSt × String :=
     (s, s!"{r.1.name} {fmtF r.2.1} {fmtF r.2.2}")
   | ["normdev"] =>
     if !(cavNodesOk s) then (s, "bad-op") else (s, normdevOp s)
-  | ["ledger"] => (s, s!"ok {b01 (ledgerOkAt s.g s.c)} {b01 (certOk s.g s.c)}")
+  | ["ledger"] => (s, s!"ok {b01 (ledgerOkAt s.g s.c)} {b01 (certOk s.g s.c)} {b01 (segIdsOk s.g s.c)}")
   | ["node23", a, b] =>
     match parseInts? [a, b] with
     | some [a, b] =>
